@@ -417,6 +417,8 @@ def updateInflight (s : S) : (fuel : Nat) → (idx : Nat) → S × RC
     match s.out[idx]? with
     | none => (s, rcSuccess)
     | some m =>
+      if s.sock.isNone then (s, rcNoConn)      -- nothing can be sent: leave the waiting messages queued
+      else
       if s.inflight < s.cfg.maxInflight then
         if m.qos > 0 ∧ m.state = .queued then
           let m' := { m with state := if m.qos = 1 then .waitPuback else if m.qos = 2 then .waitPubrec else m.state }
@@ -434,7 +436,8 @@ def doOnPublish (s : S) (mid : Nat) : S × RC :=
   | some m =>
     let s := s.emit (.completed m.info mid)
     let s := { s with out := s.out.filter (·.mid ≠ mid) }
-    let s := (s.setInfo m.info (fun x => { x with published := true })).emit (.infoDone m.info ((s.infos[m.info]?.map (·.rc)).getD 0))
+    -- msg.info.rc = MQTT_ERR_SUCCESS; msg.info._set_as_published()
+    let s := (s.setInfo m.info (fun _ => { rc := rcSuccess, published := true })).emit (.infoDone m.info rcSuccess)
     if m.qos > 0 then
       let s : S := { s with inflight := s.inflight - 1 }
       if s.cfg.maxInflight > 0 then
@@ -502,6 +505,8 @@ def connackResend (s : S) : (fuel : Nat) → (idx : Nat) → (rc : RC) → S × 
     match s.out[idx]? with
     | none => (s, rc)
     | some m =>
+      if s.sock.isNone then (s, rcNoConn)      -- the connection was lost while retransmitting
+      else
       if m.state = .queued then
         let (s, _) := s.loopWrite
         (s, rcSuccess)
@@ -542,7 +547,10 @@ def handleConnack (s : S) (sp : Bool) (result : Nat) (reconnectOk : Bool) : S ×
       if !s.cfg.rof then (s, .rc rcProtocol)
       else
         let s := { s with proto := 3 }
-        s.reconnect reconnectOk
+        -- `_reconnect_in_handler`: a failed socket open is reported, not raised
+        match s.reconnect reconnectOk with
+        | (s, .raised "ConnectionRefusedError") => (s.emit .onConnectFail, .rc rcConnLost)
+        | r => r
     else
       let s := if result = 0 then { s with cstate := (if s.cstate = .disconnecting then .disconnecting else .connected), reconnectDelay := none, ackd := true } else s
       let s := { s with firstConnect := false }
